@@ -160,6 +160,44 @@ func RunRB(out, out2, mode string) {
 		if tailBytes {
 			limit = f.Total - int64(1+r.Intn(3))
 		}
+		// one time in four the file is walked block by block: a Read up to a short tail of the block,
+		// then the tail byte by byte with one small Read in the middle (the mix inside one block)
+		if !tailBytes && r.Intn(4) == 0 {
+			for _, m := range f.Members {
+				if m.Len == 0 || len(ops) > 3500 {
+					continue
+				}
+				tail := 3 + r.Intn(120)
+				if tail > m.Len {
+					tail = m.Len
+				}
+				if m.Len > tail {
+					ops = append(ops, bgz.ROp{K: "read", N: m.Len - tail})
+				}
+				k := 0
+				if tail >= 3 {
+					lim := tail - 2
+					if lim > 7 {
+						lim = 7
+					}
+					k = 1 + r.Intn(lim)
+				}
+				at := 1
+				if tail-k-1 > 1 {
+					at = 1 + r.Intn(tail-k-1)
+				}
+				for i := 0; i < tail; {
+					if k > 0 && i == at {
+						ops = append(ops, bgz.ROp{K: "read", N: k})
+						i += k
+						continue
+					}
+					ops = append(ops, bgz.ROp{K: "readbyte"})
+					i++
+				}
+				planned += int64(m.Len)
+			}
+		}
 		for planned <= limit && len(ops) < 4000 {
 			if tailBytes {
 				// exact sizes so that the reads stop short of the end
